@@ -91,10 +91,35 @@ static void case_reset(void)
   mon_tok_done_hook                            = NULL;
   mon_enable_idx = mon_enable_fd = mon_enable_net = mon_enable_timer = 1;
   net_unique_names                                                   = 1;
+  sim_no_subms_jitter                                                = 0;
   memset(&app_sched, 0, sizeof(app_sched));
   app_sched.max_steps = 20000;
   case_fp             = VH_FNV_INIT;
   case_nontrivial     = 0;
+}
+
+static uint64_t g_case_seed;
+static unsigned sim_srand_seed;
+/* The deterministic build keys its RC4 generator with srand(0)/rand(); route that to the case seed so
+ * that query ids, 0x20 bits, rotation draws, jitter and probe chances differ from case to case. */
+void __real_srand(unsigned int seed);
+void __wrap_srand(unsigned int seed);
+void __wrap_srand(unsigned int seed)
+{
+  (void)seed;
+  __real_srand(sim_srand_seed);
+}
+
+/* (re)start the current case from scratch: everything below is a pure function of g_case_seed */
+static void case_begin(void)
+{
+  uint64_t cs = g_case_seed;
+  case_reset();
+  vh_rng_seed(&sim_rng, cs ^ 0x5bd1e995u);
+  vh_rng_seed(&app_rng, cs ^ 0xc2b2ae35u);
+  vh_rng_seed(&seg_rng, cs ^ 0x27d4eb2fu);
+  sim_srand_seed = (unsigned)(cs >> 16) | 1u;
+  sim_now_us = 1700000000000000LL + (int64_t)(cs % 1000000);
 }
 
 static void case_sample(const char *profile, uint64_t idx)
@@ -157,12 +182,9 @@ int main(int argc, char **argv)
   for (i = a.first; i < a.first + a.count; i++) {
     uint64_t cs = vh_case_seed(a.seed, a.profile, i);
     vh_rng_t rng;
-    case_reset();
+    g_case_seed = cs;
+    case_begin();
     vh_rng_seed(&rng, cs);
-    vh_rng_seed(&sim_rng, cs ^ 0x5bd1e995u);
-    vh_rng_seed(&app_rng, cs ^ 0xc2b2ae35u);
-    srand((unsigned)(cs >> 16)); /* keys the library's RC4 RNG in the deterministic build */
-    sim_now_us = 1700000000000000LL + (int64_t)(cs % 1000000);
     vh_case_begin(i);
     if (!profile_run(a.profile, &rng, i)) {
       fprintf(stderr, "unknown profile %s\n", a.profile);
